@@ -872,7 +872,7 @@ def model_check(cases, results, today, stats, chunk=120):
                 subs.append((f'rule{j}', a))
         for label, sub in subs:
             try:
-                if label != 'file' and sub.get('load') == 'ok' and not sub.get('engine_rules'):
+                if label != 'file' and sub.get('load') == 'ok' and sub.get('engine_rules') is None:
                     raise Skip('alone-no-engine-rules')
                 term, ntx = coq_subcase(sub, case['txns'], today, tabs, stats, with_text=(label == 'file'))
             except Skip as e:
@@ -1185,6 +1185,7 @@ def main(tier):
         're_case_law_checked': law_checked, 're_case_law_failed': law_failed,
         'discards': {k: v for k, v in stats.items() if k not in ('model_txn_evals', 'rules_inside_guard', 'rules_in_coq_files')},
         'discarded_files': discards, 'failing_pairs_in_unaligned_files': UNALIGNED[0],
+        'oracle_only_files_outside_model': stats.get('oracle_only_files', 0), 'oracle_only_pairs_outside_model': stats.get('oracle_only_pairs', 0),
         'generated_rules_inside_safe_rule_guard': [stats.get('rules_inside_guard', 0), stats.get('rules_in_coq_files', 0)],
         'fresh_process_per_file': len({r.get('pid') for r in results if r.get('pid')}),
         'impl_python': out.get('python')})
